@@ -47,8 +47,8 @@ ANCHORS = [
 
 def plan(tier):
     if tier == "quick":
-        return {"shards": 16, "runs": 16, "calls": 16, "timeout": 400}
-    return {"shards": 16, "runs": 900, "calls": 30, "timeout": 3400}
+        return {"shards": 16, "runs": 16, "calls": 16, "timeout": 900}
+    return {"shards": 16, "runs": 900, "calls": 30, "timeout": 7200}
 
 
 def sequential(sut, fpm, element, values):
